@@ -10,13 +10,14 @@
     c10.ctor.pwsn S S ORA          model: UserId::parse_with_server_name(id, server)
     c10.ctor.key <kind> S S        model: KeyId::from_parts(algorithm, key_name)
     c10.ctor.new <kind> S          (oracle-only on the implementation side) → ok
+    c10.ctor.b64 S                 model: OwnedBase64PublicKey::with_bytes (S = raw bytes)
     c10.exh <kind> S ORA           model: `c10.id` on prefix ++ [a, b] for all a, b of the alphabet
 
   An oracle the model asks for that is not in the table makes the answer `bad-op` (detected by
   evaluating with both defaults), never a silent default.
 -/
 import RumaModel.Proto
-import RumaModel.Model.Ids
+import RumaModel.Model.IdsExt
 import RumaModel.Spec.IdGrammar
 namespace Ruma.Driver.C10
 open Ruma Ruma.Proto Ruma.Ids
@@ -101,15 +102,14 @@ def fON : Res (Option Nat) → String
   | .err => "err"
   | .panic => "panic"
 
-/-- `UserId::validate_strict().is_ok()` / `is_historical()` from `localpart_is_fully_conforming`. -/
+/-- `UserId::validate_strict().is_ok()` and `is_historical()` (model: `userStrict`,
+`userIsHistorical` of `Model/IdsExt.lean`). -/
 def conforming (s : Str) : Res Bool × Res Bool :=
-  match localpart s with
-  | .ok lp =>
-    match localpartFullyConforming lp with
-    | .ok c => (.ok c, .ok (!c))
-    | .err => (.ok false, .ok false)
-    | .panic => (.panic, .panic)
-  | _ => (.panic, .panic)
+  (match userStrict s with
+    | .ok () => .ok true
+    | .err => .ok false
+    | .panic => .panic,
+   userIsHistorical s)
 
 def fields (x : Ext) (k : Kind) (s : Str) : List String :=
   match k with
@@ -199,6 +199,13 @@ def handle (toks : List String) : String :=
     match kindOf k, parseStrTok alg, parseStrTok name with
     | some _, some alg, some name => "ok " ++ strTok (keyFromParts alg name)
     | _, _, _ => "bad-op"
+  | ["c10.ctor.b64", b] =>
+    match parseStrTok b with
+    | some bytes => withExt [] (fun x => match withBytes x bytes with
+        | .ok r => "ok " ++ strTok r
+        | .err => "err"
+        | .panic => "panic")
+    | none => "bad-op"
   | ["c10.ctor.new", k, srv] =>
     match kindOf k, parseStrTok srv with
     | some _, some _ => "ok"
